@@ -172,7 +172,7 @@ def _canonicalizing_fns(ctx):
     from .r3 import _slice_calls
     out = set()
     for f in ctx.bin.real_fns():
-        if f.kind not in ("method", "fn"):
+        if f.kind not in ("method", "fn", "closure"):
             continue
         if "Path" not in f.ret:
             continue
@@ -187,6 +187,10 @@ def _canonicalizing_fns(ctx):
                 calls.add(c.get("res") or "?")
                 for a in c["args"]:
                     calls |= _slice_calls(ctx.bin, f, a)
+                for cid, _loc in c.get("clos", []):
+                    cf = ctx.bin.fns.get(cid)
+                    if cf is not None:
+                        calls |= {c2.get("res") or "?" for _b2, c2 in cf.calls()}
         if any(re.search(r"Path::canonicalize$|::get_canonical_path$|fs::canonicalize$", x) for x in calls):
             out.add(f.id)
     return out
